@@ -110,8 +110,8 @@ def case_history(col, p):
         dadi.Integration.timescale_factor = 1e-4
         m = model_factory('const')
         three = errs[(2, 0.1, 'const', 12, 'lin')]
-        for k in (2, 4, 5, 6):
-            pts_l = [80 + 20 * q for q in range(k)]
+        for k in (1, 2, 4, 5, 6):
+            pts_l = [80 + 20 * q for q in range(k)] if k > 1 else [160]        # one grid size: no extrapolation, the plain result
             for mode, fx in (('lin', dadi.Numerics.make_extrap_func(m)), ('log', dadi.Numerics.make_extrap_log_func(m))):
                 try:
                     fs = fx(None, (12,), pts_l)
@@ -121,7 +121,7 @@ def case_history(col, p):
                 col.tick(transitions=1)
                 ek = float(np.abs(np.asarray(fs.data)[1:12] / exact[12] - 1.0).max())
                 # two grid sizes give only first-order extrapolation: sanity bound there, the 1.5% bound for 4-6 grid sizes
-                if not ek <= (max(0.05, 10 * three) if k == 2 else max(0.015, 3 * three)):
+                if not ek <= (max(0.05, 10 * three) if k <= 2 else max(0.015, 3 * three)):
                     col.violation('C01:extrapolation:%d_grids:error' % k, dict(info, mode=mode), {'relerr': ek, 'relerr_three_grids': three})
         for passing in ('const', 'func'):
             for n in NSAMP:
